@@ -70,6 +70,12 @@ def mapGet [BEq κ] [Inhabited ν] (m : List (κ × ν)) (k : κ) : ν :=
   | some kv => kv.2
   | none => default
 
+/-- `v, ok := m[k]` -/
+def mapGet2 [BEq κ] [Inhabited ν] (m : List (κ × ν)) (k : κ) : ν × Bool :=
+  match m.find? (fun kv => kv.1 == k) with
+  | some kv => (kv.2, true)
+  | none => (default, false)
+
 /-- `m[k] = v` on a map: the entry of `k` replaced, a new entry when there was none -/
 def mapSet [BEq κ] : List (κ × ν) → κ → ν → List (κ × ν)
   | [], k, v => [(k, v)]
